@@ -5,6 +5,7 @@ import casadi as ca
 
 from cyverif.harness import Ob, cells, PROVED, REFUTED, Result
 from cyverif.harness import Trace as _Trace
+from cyverif.ring import Frac
 from cyverif.sorts import Free
 from . import spec
 from .groups import SO3_GROUPS, make_groups, so3_sort, so3_spec
@@ -158,8 +159,93 @@ def conv_traces(tier):
     return T
 
 
+def gimbal_band_traces():
+    """inside the gimbal band the Euler conversion returns (atan2(+-R12, +-R02), asin(-R20), 0); the rotation it represents
+    differs from the input rotation by at most 2 cos(pitch) in every matrix entry, and cos(pitch) < sin(1e-3) < 1e-3 in
+    the band (the 'documented 1e-3 rad band tolerance').  Stated for every Euler triple with pitch in (0, pi/2] (north
+    cell: first test decided true) resp. [-pi/2, 0) (south cell), which contains the band.  The inequality is discharged by
+    a machine-checked proof script (cyverif.absproof): ring identities between the lowered values + small solver steps."""
+    from cyverif.absproof import AbstractProof
+    from cyverif.sorts import Angle
+    from cyecca.lie.group_so3 import SO3EulerB321, SO3EulerLieGroup
+    T = []
+    for pole, sgn in (("north", 1), ("south", -1)):
+        def b(psi, theta, phi):
+            e = ca.vertcat(psi, theta, phi)
+            M = spec.R_euler_b321(e)
+            out = SO3EulerB321.from_Matrix(M)
+            D = spec.R_euler_b321(out.param) - M
+            c = ca.cos(theta)
+            return {"abs_err": ca.fabs(D), "err": D, "bound": 2 * c * ca.SX.ones(3, 3), "roll": out.param[2]}
+
+        def script(trace, low, onodes, sgn=sgn):
+            import z3
+            R = low.R
+            S = trace._sorts()
+            ps, th, ph = S["psi"], S["theta"], S["phi"]
+            F = lambda p: Frac.of(R, p)
+            A = (ps.c * th.s * ph.c + ps.s * ph.s).scale(sgn)      # sgn * R02
+            B = (ps.s * th.s * ph.c - ps.c * ph.s).scale(sgn)      # sgn * R12
+            rho = low.sqrt(F(R.reduce(A.raw_mul(A) + B.raw_mul(B))))  # the root atom the real code's atan2 introduced
+            P = AbstractProof(low, timeout=30)
+            for name, v in (("A", A), ("B", B), ("rho", rho), ("st", th.s.scale(sgn)), ("ct", th.c), ("cps", ps.c), ("sps", ps.s), ("cph", ph.c), ("sph", ph.s),
+                            ("K", ps.c * ph.c - (ps.s * ph.s).scale(sgn)), ("K2", ps.s * ph.c + (ps.c * ph.s).scale(sgn)),
+                            ("R01", ps.c * th.s * ph.s - ps.s * ph.c), ("R11", ps.s * th.s * ph.s + ps.c * ph.c)):
+                P.define(name, v)
+            # identities of the lowered values (checked by the ring)
+            P.relation("rho^2 = A^2 + B^2", lambda n: n.rho * n.rho - n.A * n.A - n.B * n.B)
+            P.relation("rho^2 = 1 - ct^2 cph^2", lambda n: n.rho * n.rho - 1 + n.ct * n.ct * n.cph * n.cph)
+            P.relation("st^2 + ct^2 = 1", lambda n: n.st * n.st + n.ct * n.ct - 1)
+            P.relation("cps^2 + sps^2 = 1", lambda n: n.cps * n.cps + n.sps * n.sps - 1)
+            P.relation("cph^2 + sph^2 = 1", lambda n: n.cph * n.cph + n.sph * n.sph - 1)
+            P.relation("K^2 + K2^2 = 1", lambda n: n.K * n.K + n.K2 * n.K2 - 1)
+            P.relation("R11 - A = (1 - st) K", lambda n: n.R11 - n.A - (1 - n.st) * n.K)
+            P.relation("R01 + B = -(1 - st) K2", lambda n: n.R01 + n.B + (1 - n.st) * n.K2)
+            # base facts
+            P.assume("st > 0", lambda n: n.st > 0, "requires of the cell: sin(pitch) has the pole's sign")
+            P.assume("ct >= 0", lambda n: n.ct >= 0, "requires: canonical pitch in [-pi/2, pi/2]")
+            P.assume("rho >= 0", lambda n: n.rho >= 0, "principal square root")
+            # small steps
+            P.step("pitch bounds", ["st > 0", "ct >= 0", "st^2 + ct^2 = 1"], lambda n: z3.And(n.st <= 1, n.ct <= 1, 1 - n.st <= n.ct * n.ct, n.ct * n.ct <= n.ct))
+            P.step("|cph| <= 1", ["cph^2 + sph^2 = 1"], lambda n: n.cph * n.cph <= 1)
+            P.step("rho bounds", ["rho >= 0", "rho^2 = 1 - ct^2 cph^2", "|cph| <= 1", "pitch bounds", "st > 0", "ct >= 0", "st^2 + ct^2 = 1"],
+                   lambda n: z3.And(n.rho > 0, n.rho <= 1, 1 - n.rho <= n.ct * n.ct))
+            P.step("|A|, |B| <= rho", ["rho >= 0", "rho^2 = A^2 + B^2"], lambda n: z3.And(n.A <= n.rho, -n.A <= n.rho, n.B <= n.rho, -n.B <= n.rho))
+            P.step("|K|, |K2| <= 1", ["K^2 + K2^2 = 1"], lambda n: z3.And(n.K <= 1, -n.K <= 1, n.K2 <= 1, -n.K2 <= 1))
+            P.step("|cps|, |sps| <= 1", ["cps^2 + sps^2 = 1"], lambda n: z3.And(n.cps <= 1, -n.cps <= 1, n.sps <= 1, -n.sps <= 1))
+            L, Rb = onodes["err"], onodes["bound"]
+            ctx = ["pitch bounds", "rho bounds", "|A|, |B| <= rho", "|K|, |K2| <= 1", "|cps|, |sps| <= 1", "st > 0", "ct >= 0", "R11 - A = (1 - st) K", "R01 + B = -(1 - st) K2"]
+            c1 = lambda n: n.A / n.rho   # cos, sin of the returned yaw
+            s1 = lambda n: n.B / n.rho
+            exprs = {(0, 0): lambda n: c1(n) * n.ct - n.cps * n.ct, (0, 1): lambda n: -s1(n) - n.R01, (0, 2): lambda n: c1(n) * n.st * sgn - n.A * sgn,
+                     (1, 0): lambda n: s1(n) * n.ct - n.sps * n.ct, (1, 1): lambda n: c1(n) - n.R11, (1, 2): lambda n: s1(n) * n.st * sgn - n.B * sgn,
+                     (2, 0): lambda n: 0 * n.ct, (2, 1): lambda n: -n.ct * n.sph, (2, 2): lambda n: n.ct - n.ct * n.cph}
+            P.step("|sph| <= 1", ["cph^2 + sph^2 = 1"], lambda n: z3.And(n.sph <= 1, -n.sph <= 1, n.cph <= 1, -n.cph <= 1))
+            ctx.append("|sph| <= 1")
+            cnt = 0
+            for (i, j), fn_ in exprs.items():
+                e = P.express(low.value(L[i][j]), fn_, f"entry [{i},{j}]")   # the lowered output entry IS this expression (ring)
+                bnd = P.express(low.value(Rb[i][j]), lambda n: 2 * n.ct)
+                P.step(f"|E[{i},{j}]| <= 2 ct", ctx, lambda n, e=e, bnd=bnd: z3.And(e <= bnd, -e <= bnd))
+                cnt += 1
+            return PROVED, f"{cnt} entries: proof script accepted ({len(P.log)} lines: 8 ring identities, 3 base facts, {len(P.log) - 11} solver steps, {P.seconds:.1f}s solver time)", cnt
+
+        def req(rs, sorts, sgn=sgn):
+            th = sorts["theta"]
+            return [rs.poly(th.s) * sgn > 0, rs.poly(th.c) >= 0]
+
+        T.append(_Trace(f"C07.Euler.from_Matrix.band-{pole}", [Angle("psi"), Angle("theta", 1, 1.4 if sgn > 0 else -1.5707, 1.5707 if sgn > 0 else -1.4, cos_nonneg=True), Angle("phi")], b,
+                        [Ob("in-band result: |M(result) - M(input)| <= 2 cos(pitch) in every entry (< 2e-3 inside the 1e-3 rad band)", "abs_err", "bound", kind="script", check=script,
+                            falsify=Ob("falsify", "abs_err", "bound", kind="le", tol=1e-9)),
+                         Ob("in-band result: roll = 0", "roll", None)],
+                        functions=[SO3EulerLieGroup.from_Matrix], decide=cells(series="closed", gimbal=pole), requires_smt=req, smt_timeout=30, budget_s=900,
+                        definedness=False, lemmas=["L-TRIG-MONO: cos(pitch) < sin(1e-3) < 1e-3 when |pitch -+ pi/2| < 1e-3 (monotonicity of cos, stated)"],
+                        note=f"{pole} band cell: the gimbal test of from_Matrix decided true; requires sin(pitch) {'>' if sgn > 0 else '<'} 0, cos(pitch) >= 0"))
+    return T
+
+
 def traces(tier="quick"):
-    return conv_traces(tier)
+    return conv_traces(tier) + gimbal_band_traces()
 
 
 def jobs(tier="quick"):
@@ -183,9 +269,10 @@ def canaries(tier="quick"):
 
 
 MIN_OBLIGATIONS = {"quick": 50, "thorough": 50}
-TRUSTED = ["A-GRAPH, A-REAL, own ring engine (see C01)", "z3 4.x / cvc5 (QF_NRA) for the |r|^2 <= 1 and divisor-nonzero obligations"]
+TRUSTED = ["A-GRAPH, A-REAL, own ring engine (see C01)", "z3 4.x / cvc5 (QF_NRA) for the |r|^2 <= 1 and divisor-nonzero obligations and for the steps of the proof script (cyverif.absproof)"]
 ASSUMPTIONS = [
     "lemma L-SO3 (not machine-checked): every rotation matrix is R(q) for a unit quaternion q of either sign (sort of the from_Matrix inputs)",
-    "requires: Euler pitch outside the +-1e-3 rad gimbal band (exactness claim); the in-band tolerance clause (K*1e-3) is not decided here",
+    "exactness claim: requires Euler pitch outside the +-1e-3 rad gimbal band; inside the band the tolerance clause is the separate obligation |M(result) - M(input)| <= 2 cos(pitch) entrywise "
+    "(C07.Euler.from_Matrix.band-north/south, proved for canonical input triples with pitch in (0, pi/2] / [-pi/2, 0) by a machine-checked proof script); cos(pitch) < 1e-3 in the band is lemma L-TRIG-MONO (stated)",
     "requires: quaternion -> MRP away from q0 = -1 (divisor 1 + q0), see the unchecked definedness assumptions in coverage",
 ]
